@@ -132,7 +132,7 @@ def shrink(scn, fails, budget=60):
     return cur
 
 
-def run_scenarios(rep, tier, seed, tag, make_scenario, oracle, n_quick, n_thorough, nontrivial=None, corpus=(), compare_model=True):
+def run_scenarios(rep, tier, seed, tag, make_scenario, oracle, n_quick, n_thorough, nontrivial=None, corpus=(), compare_model=True, snap=False):
     """make_scenario(rng, i) -> scenario; oracle(rep, scn, replay, impl_obs, root, report_violation)"""
     n = n_quick if tier == "quick" else n_thorough
     scratch = core.Scratch(tag)
@@ -143,7 +143,7 @@ def run_scenarios(rep, tier, seed, tag, make_scenario, oracle, n_quick, n_thorou
             rng = core.rng_for(seed, f"{tag}/{i}")
             scenarios.append((f"gen{i}", make_scenario(rng, i)))
         for label, scn in scenarios:
-            impl_obs, root = world.run_impl(scn, scratch)
+            impl_obs, root = world.run_impl(scn, scratch, snap=snap)
             replay = Replay(scn).build(impl_obs)
             for st, o in zip(scn["steps"], impl_obs):
                 rep.count("step." + st["op"])
@@ -157,12 +157,17 @@ def run_scenarios(rep, tier, seed, tag, make_scenario, oracle, n_quick, n_thorou
                 d = world.first_difference(scn, impl_obs, model_obs)
                 rep.traces += 1
                 if d is not None:
-                    def still(c):
-                        io, _ = world.run_impl(c, scratch)
-                        return world.first_difference(c, io, world.run_model(c, model)) is not None
+                    def keys_of(dd):
+                        return sorted(k for k in dd[1] if dd[1][k] != dd[2].get(k))
+
+                    def still(c, _op=scn["steps"][d[0]]["op"], _keys=keys_of(d)):
+                        # the reduced scenario must fail the same way: same command, same differing fields
+                        io, _ = world.run_impl(c, scratch, snap=snap)
+                        d2 = world.first_difference(c, io, world.run_model(c, model))
+                        return d2 is not None and c["steps"][d2[0]]["op"] == _op and keys_of(d2) == _keys
 
                     small = shrink(scn, still) if len(rep.disagreements) < 2 else scn
-                    io, _ = world.run_impl(small, scratch)
+                    io, _ = world.run_impl(small, scratch, snap=snap)
                     mo = world.run_model(small, model)
                     dd = world.first_difference(small, io, mo) or d
                     rep.disagree({"scenario": small, "step": dd[0]}, dd[2], dd[1], f"model and implementation differ at step {dd[0]} ({small['steps'][dd[0]]['op']})")
@@ -170,7 +175,7 @@ def run_scenarios(rep, tier, seed, tag, make_scenario, oracle, n_quick, n_thorou
             def report(signature, step, expected, actual, what, _scn=scn):
                 def still(c, _sig=signature):
                     hits = []
-                    io, r = world.run_impl(c, scratch)
+                    io, r = world.run_impl(c, scratch, snap=snap)
                     oracle(None, c, Replay(c).build(io), io, r, lambda s, *a: hits.append(s))
                     return _sig in hits
 
@@ -185,7 +190,7 @@ def run_scenarios(rep, tier, seed, tag, make_scenario, oracle, n_quick, n_thorou
         scratch.cleanup()
 
 
-def replay_scenario(rep, data, oracle):
+def replay_scenario(rep, data, oracle, snap=True):
     """bin/check Cnn --replay FILE for scenario-shaped replays"""
     scn = (data.get("scenario") or {}).get("scenario")
     if not scn:
@@ -193,7 +198,7 @@ def replay_scenario(rep, data, oracle):
     scratch = core.Scratch("rp")
     model = world.new_model()
     try:
-        impl_obs, root = world.run_impl(scn, scratch)
+        impl_obs, root = world.run_impl(scn, scratch, snap=snap)
         for st, o in zip(scn["steps"], impl_obs):
             print("step", json.dumps(st), "->", json.dumps(world.comparable(o, st["op"], st), default=str)[:600])
         mo = world.run_model(scn, model)
